@@ -22,6 +22,30 @@ def M(id_, file, old, new, props):
 
 
 MUTANTS = [
+    M('reader-class-dispatch-inverted', U, "        if group.attrs['bound_class'] == 'Ellipsoid':",
+      "        if group.attrs['bound_class'] != 'Ellipsoid':", 'C09 C05'),
+    M('acceptance-one-plus-inverse', U, "            p = 1 - 1.0 / n_bound", "            p = 1 + 1.0 / n_bound", 'C08'),
+    M('acceptance-inverse-square', U, "            p = 1 - 1.0 / n_bound\n"
+      "            points = points[self.rng.random(size=len(points)) > p]",
+      "            points = points[self.rng.random(size=len(points)) < 1 / n_bound**2]", 'C08'),
+    M('volume-without-first-draw', U, "        if self.n_sample == 0:\n            self.sample()",
+      "        if self.n_sample != 0:\n            self.sample()", 'C08'),
+    M('reset-leaves-a-rejection', U, "        self.n_sample = 0\n        self.n_reject = 0",
+      "        self.n_sample = 0\n        self.n_reject = 1", 'C08'),
+    M('neff-product-instead-of-quotient', S, "        return np.sum(sum_w)**2 / np.sum(sum_w_sq)",
+      "        return np.sum(sum_w)**2 * np.sum(sum_w_sq)", 'C02'),
+    M('neff-numerator-not-squared', S, "        return np.sum(sum_w)**2 / np.sum(sum_w_sq)",
+      "        return np.sum(sum_w) / np.sum(sum_w_sq)", 'C02'),
+    M('f-live-sum-of-logs', S, "            return np.exp(logsumexp(log_w_live) - logsumexp(log_w))",
+      "            return np.exp(logsumexp(log_w_live) + logsumexp(log_w))", 'C02'),
+    M('new-shell-proposal-count-one', S, "self.shell_n_sample = np.append(self.shell_n_sample, 0)",
+      "self.shell_n_sample = np.append(self.shell_n_sample, 1)", 'C02'),
+    M('new-shell-phantom-row', S, "            self.log_l.append(np.zeros(0))",
+      "            self.log_l.append(np.zeros(1))", 'C03 C01'),
+    M('call-counter-starts-at-one', S, "        self.n_like = 0\n        self.explored = False",
+      "        self.n_like = 1\n        self.explored = False", 'C10'),
+    M('phantom-shell-record', S, "        self.shell_n_sample = np.zeros(0, dtype=int)",
+      "        self.shell_n_sample = np.zeros(1, dtype=int)", 'C02'),
     M('split-index-from-linear-volumes', U,
       "index = np.argmax(np.where(~self.block, self.log_v_all, -np.inf))",
       "index = np.argmax(np.exp(self.log_v_all) * ~self.block)", 'C13 C08'),
@@ -1022,6 +1046,18 @@ BENIGN += [
          new="np.bincount(labels) > self.n_points_min - 1):", props=ALL.split()),
     dict(id='mixture-transform-copy-by-array', file=B, old="        points_t = np.copy(points)\n",
          new="        points_t = np.array(points, dtype=float)\n", props=ALL.split()),
+    dict(id='new-shell-rows-empty-call', file=S, old="            self.log_l.append(np.zeros(0))",
+         new="            self.log_l.append(np.empty(0))", props=ALL.split()),
+    dict(id='new-shell-count-as-list', file=S,
+         old="self.shell_n_sample = np.append(self.shell_n_sample, 0)",
+         new="self.shell_n_sample = np.append(self.shell_n_sample, [0])", props=ALL.split()),
+    dict(id='neff-square-by-product', file=S, old="        return np.sum(sum_w)**2 / np.sum(sum_w_sq)",
+         new="        s1 = np.sum(sum_w)\n        return s1 * s1 / np.sum(sum_w_sq)",
+         props=ALL.split()),
+    dict(id='acceptance-direct-form', file=U, old="            p = 1 - 1.0 / n_bound\n"
+         "            points = points[self.rng.random(size=len(points)) > p]",
+         new="            points = points[self.rng.random(size=len(points)) < 1 / n_bound]",
+         props=ALL.split()),
     dict(id='with-statement', file=S, old="fstream = h5py.File(filepath_tmp, 'w')", new=None,
          fn=_with_statement, props=ALL.split()),
     dict(id='guard-clause-trim', file=U, old="            return False\n\n    def contains",
